@@ -34,7 +34,8 @@ NONTRIVIAL_RULE = "paths whose event sequence built a tree of depth >= 2 or exer
 
 M = {}
 NAMES = ["a", "b", "br", "img", "div"]
-VOID = {"br", "img"}
+# the elements HTML parsers treat as void (the start tag is the whole element)
+VOID = {"area", "base", "br", "col", "embed", "hr", "img", "input", "link", "meta", "param", "source", "track", "wbr"}
 KINDS = ["start", "end", "startend", "data", "comment", "decl", "pi", "charref", "entityref"]
 
 
@@ -65,6 +66,7 @@ def make_events(eng, k, nattr, kinds=None, wellformed_only=False, names=None, co
     anone = [[new_bool(eng, "an%d_%d" % (i, j)) for j in range(nattr)] for i in range(k)]
     alen = [[new_int(eng, "al%d_%d" % (i, j), 0, 2) for j in range(nattr)] for i in range(k)]
     data = [new_str(eng, "d%d" % i, 2, alphabet="t \n<") for i in range(k)]
+    dlen = [new_int(eng, "dl%d" % i, 0, 2) for i in range(k)]  # '<!---->' and '<?>' are an empty comment / processing instruction
     ANAMES = ["class", "id"]
 
     state = {}
@@ -90,6 +92,8 @@ def make_events(eng, k, nattr, kinds=None, wellformed_only=False, names=None, co
                         v = None if (not wellformed_only and bool(anone[i][j])) else lift(avals[i][j])[: eng.concretize_int(alen[i][j])]
                         attrs.append((ANAMES[j], v))
                 events.append((kind, name, attrs))
+            elif kind in ("comment", "pi") and not concrete_data:
+                events.append((kind, lift(data[i])[: eng.concretize_int(dlen[i])]))
             else:
                 events.append((kind, "t" if concrete_data else lift(data[i])))
         state["events"] = events
@@ -460,6 +464,8 @@ def families(tier, seed):
         F.append(Family("tags/K%d" % k, make_events, "all sequences of %d start/end/startend/data events over names a,b,br (nesting logic), no attributes, concrete data" % k,
                         args=dict(k=k, nattr=0, kinds=["start", "end", "startend", "data"], names=["a", "b", "br"], concrete_data=True), nontrivial="roundtrip", max_forks=50000,
                         required=(k <= (4 if q else 5))))
+    F.append(Family("events/void-names", make_events, "2 events (start/end/data) over every void element name of HTML %r and 'p': a void start tag never opens a scope, its end tag is ignored" % (sorted(VOID),),
+                    args=dict(k=2, nattr=0, kinds=["start", "end", "data"], names=sorted(VOID) + ["p"], concrete_data=True), nontrivial="roundtrip", max_forks=50000))
     F.append(Family("events/K2-A1-whitespace", make_events, "2 events (start/startend/end/data), <=1 attribute whose value is <=2 chars over 'x' + space, tab, newline, form feed, CR (class tokens are separated by any ASCII white space)",
                     args=dict(k=2, nattr=1, aval_alpha="x \t\n\x0c\r", kinds=["start", "startend", "end", "data"], concrete_data=True), nontrivial="roundtrip", max_forks=50000))
     F.append(Family("mutators", make_mutators, "insert/__setitem__/append/reset_children x index x foreign-parent", nontrivial="roundtrip"))
